@@ -88,7 +88,8 @@ def gen_cases(rng, tier):
             if sum(1 for e in s if e in ("accept",) or e.startswith("reject")) <= 1:
                 seqs.append(list(s))
     else:
-        seqs = seqs[::2] + [["accept", "cancel"], ["cancel", "accept"], ["bye", "accept"], ["accept", "bye"], ["reject:603", "cancel"], ["prov", "cancel", "reject:486"]]
+        seqs = seqs[::2] + [["accept", "cancel"], ["cancel", "accept"], ["bye", "accept"], ["accept", "bye"], ["reject:603", "cancel"], ["prov", "cancel", "reject:486"],
+                            ["accept", "cancel", "bye"], ["accept", "cancelx", "bye"], ["prov", "accept", "cancel", "bye"]]
     for s in seqs:
         for late in (False, True):
             acts = ["0:inv"]
@@ -246,6 +247,13 @@ def oracle(case, impl):
         if m and m.group(1) != "481":
             return ["a CANCEL that matches no pending INVITE was answered %s instead of 481" % m.group(1)]
     if kind == "race":
+        # an established session only ends through a BYE (the session timer lies far beyond every script)
+        names = [n for n, _ in evs]
+        if "accept-result:ok" in names and "terminated:uas" in names and "bye" not in case[7].split(","):
+            return ["the established session was terminated although no BYE arrived (events: %s)" % case[7]]
+        if "accept-result:ok" in names and "bye" in case[7].split(",") and case[7].split(",").index("bye") > case[7].split(",").index("accept"):
+            if "bye-received:uas" not in names:
+                return ["a BYE for the established session was not handed to it (events: %s)" % case[7]]
         # a matching CANCEL / BYE that arrives first must win: 487 for the INVITE, 200 for itself
         first = case[7].split(",")[0]
         if first in ("cancel", "bye") and sorted(finals) != [487]:
